@@ -148,6 +148,12 @@ func errValueKind(v ssa.Value, at *ssa.BasicBlock, depth int) ExitKind {
 		if sc := x.Call.StaticCallee(); sc != nil && errCtorNames[fullName(sc)] {
 			return ExitError
 		}
+		// function variables such as sdkerrors.Wrap = errorsmod.Wrap
+		if u, ok := x.Call.Value.(*ssa.UnOp); ok && u.Op == token.MUL {
+			if g, ok := u.X.(*ssa.Global); ok && g.Pkg != nil && errCtorNames[g.Pkg.Pkg.Path()+"."+g.Name()] {
+				return ExitError
+			}
+		}
 	case *ssa.ChangeInterface:
 		return errValueKind(x.X, at, depth)
 	case *ssa.Phi:
